@@ -247,7 +247,7 @@ var prop = vkit.Prop[Case]{
 		"(assert) JWT assertion derived from a valid one by 0-3 mutations (impersonation of another client with own key, iss, sub, aud forms, exp / iat at +-{0,1,2,3,5,30,3600}s around every bound, kid, signing key own/other client's/unregistered, alg, unsigned / HS256-with-public-key / tampered / garbage signature, extra claims, time encodings) " +
 		"used directly (VerifyJWTAssertion, ClientJWTAuth, AuthorizePrivateJWTKey under generated issuer / max age / offset / subject check) or as client_assertion on token(code, refresh) / introspection / revocation or as jwt-bearer grant; " +
 		"(reqobj) authorize request whose request object overrides 1-6 plain parameters with different values, signer / iss / aud / client_id / response_type each agreeing or not, via HTTP (stored auth request) or op.ParseRequestObject; " +
-		"(interop) assertion built by client.SignedJWTProfileAssertion, oidc.GenerateJWTProfileToken, rp (JWT profile), rs, profile token source, tokenexchange with PKCS#1 / PKCS#8 keys. " +
+		"(interop) assertion built by client.SignedJWTProfileAssertion, oidc.GenerateJWTProfileToken, rp (JWT profile, full login + code exchange), rs, profile token source, tokenexchange with RSA PKCS#1 / PKCS#8 and P-256 PKCS#8 keys (asserted) and P-384 / Ed25519 keys (observed only; counted grey). " +
 		"non-trivial = some statement condition violated or inside a 2 s time window, or accepted although another client registers a different key under the same kid, or any interop case; " +
 		"distinct = (kind, use, router, verdict, violated / window sets, key relation, kid relation, alg, relative times, verifier settings | request-object conditions and overridden fields | helper, key format, use)",
 	Gen: genCase,
